@@ -170,6 +170,9 @@ def report(rep: core.Report, pairs, timeouts, mm, skips, stats, extra_key=None, 
         if clause == 'model-raises' and merr in ('TypeError', 'ValueError') and progrun.has_big(o['inputs'][idx - 1]['args']):
             skips.append((pid, idx, 'skip', 'WideValue'))
             continue
+        if clause.endswith('zero-sign') and (progrun.rtn_involved(o, o['inputs'][idx - 1]) or progrun.rtn_involved(x, x['inputs'][idx - 1])):
+            skips.append((pid, idx, 'skip', 'RTNZeroSign'))
+            continue
         if precondition_error is not None and clause in ('model-raises', 'code-raises'):
             err = merr if clause == 'model-raises' else x['inputs'][idx - 1]['out'].get('err', '')
             if precondition_error(meta, err):
